@@ -425,6 +425,9 @@ def run(task, ctx):
     elif kind == 'dense':
         # interior values: the reference-encoded dense sweeps of C01
         for m, vec, ch in corpus.dense_cases(task[1:], ctx.tier):
+            if any(A.nesting(v) > 64 for v in vec
+                   if isinstance(v, (dict, list))):
+                continue    # beyond the depth a decoder must handle (C09)
             data, _f = refcodec.enc_method_frame(m, vec, ch)
             ctx.case(('f', data), True, sample=lambda: {
                 'method': m.name, 'vec': short(list(vec), 100),
